@@ -15,8 +15,8 @@ CONSTANTS M, Mode, Emit, Widths
 \* ---------------------------------------------------------------- indent
 KindEvents == { [k |-> "Start", b |-> <<97>>], [k |-> "End", b |-> <<97>>],
                 [k |-> "Empty", b |-> <<101, 32, 107, 61, 34, 49, 34>>],
-                [k |-> "Text", b |-> <<116>>], [k |-> "Text", b |-> <<32>>],
-                [k |-> "CData", b |-> <<99>>], [k |-> "Comment", b |-> <<32, 120, 32>>],
+                [k |-> "Text", b |-> <<116>>], [k |-> "Text", b |-> <<32>>], [k |-> "Text", b |-> <<>>],
+                [k |-> "CData", b |-> <<99>>], [k |-> "CData", b |-> <<>>], [k |-> "Comment", b |-> <<32, 120, 32>>],
                 [k |-> "Decl", b |-> <<120,109,108,32,118,101,114,115,105,111,110,61,34,49,46,48,34>>],
                 [k |-> "PI", b |-> <<112, 32, 105>>], [k |-> "DocType", b |-> <<100>>],
                 [k |-> "Eof", b |-> <<>>] }
